@@ -257,6 +257,12 @@ def gen_module(rng, hostile):
             text += f" !< {t} tr"
             docs.append(t)
         ln = len(lines)
+        if style == "trailing" and rng.random() < 0.35:
+            # the statement continued over two lines, the trailing documentation on its last line
+            cut = text.index(":: " + d["name"])
+            lines.append(text[:cut].rstrip() + " &")
+            text = ind + "    " + text[cut:]
+            ln = len(lines)
         lines.append(text)
         if style == "after":
             t = newtok()
